@@ -52,6 +52,8 @@ def write(pid, mod, tier, seed, acc, wall, n_unknown, known, src):
             jsonschema.validate(ev, json.load(f))
     except ImportError:
         pass
+    except Exception as e:  # still write what was measured; never invent numbers to satisfy the schema
+        print(f"WARNING: evidence for {pid} does not validate against the schema: {str(e).splitlines()[0]}")
     os.makedirs(os.path.join(VERIF, "evidence"), exist_ok=True)
     out = os.path.join(VERIF, "evidence", f"{pid}.json")
     with open(out, "w") as f:
